@@ -82,8 +82,8 @@ OUTSIDE = {
     "C03": [
         "round trips through the real zlib / bzip2 / LZMA / PKWare / implode / Huffman codecs (external crates or table-driven loops beyond CBMC's reach): "
         "for them only the store-raw rule (any codec behaviour), dispatch consistency and acceptance of every emit-able size pair are decided",
-        "the sparse codec on inputs of 9..137 bytes and beyond 138 bytes (cost grows with N^3; 10 bytes: no verdict in 30 min), and on 138-byte inputs of "
-        "another shape than 'literal run of 127..=131 bytes, zeros, arbitrary rest' (run bytes other than positions 0, 1, 126..R are the constant 0x55)",
+        "the sparse codec on inputs of more than 8 bytes (cost grows with N^3; 10 bytes: no verdict in 30 min) - in particular the literal-run markers "
+        "0x80/0x81/0x82, which need a run of 128..130 bytes: the 138-byte harness with per-loop bounds gave no verdict in 50 minutes and is not registered",
         "the bounded-array model of Vec<u8> in the derived copy of sparse.rs is trusted (same observable push / extend_from_slice / resize / len / deref semantics; "
         "checked against the real functions on three concrete vectors)",
         "multi-method selectors (sparse+zlib, sparse+bzip2 ...) beyond dispatch, ADPCM length / interleaving beyond decoder totality",
@@ -535,12 +535,12 @@ H("C03", "mpq", _SP, "thorough", "C03.b sparse codec round trip, 6..8 bytes",
   ["c03b_sparse_roundtrip_n%d" % n for n in (6, 7, 8)], _spfn,
   "input [u8; N] fully symbolic", "N in {6, 7, 8} (N >= 10: no verdict in 30 min)", stubs=[FMT, BVEC], timeout=2400)
 # c03b_sparse_roundtrip_run_n9 (shape harness at 9 bytes) is NOT registered: 10.8 GB after 7.5 min; the full 1..=8 byte harnesses subsume it.
-H("C03", "mpq", _SP, "thorough", "C03.b sparse codec, literal-run boundaries 0x80/0x81/0x82: R non-zero bytes, Z zero bytes, then arbitrary bytes",
-  ["c03b_sparse_roundtrip_run_127_131_n138"], _spfn,
-  "R in 127..=131 and Z symbolic; run bytes 0x55 except positions 0, 1, 126..R (symbolic non-zero); the bytes behind the zero run symbolic", "N = 138; per-loop unwinding bounds (checked by unwinding assertions)",
-  stubs=[FMT, BVEC], timeout=3000, mem_gb=30,
-  # arrays up to 200 elements are split into one symbol per element (CBMC's default limit is 64): the 176-byte model buffer then costs
-  # one multiplexer per element and write instead of the array theory's quadratic constraints (> 30 GB)
+# c03b_sparse_roundtrip_run_127_131_n138 (138-byte inputs whose literal run crosses the 0x80/0x81/0x82 markers) is NOT registered:
+# with per-loop unwinding bounds (unwindset, below) it runs out of the 30 GB cap in CBMC's array theory, with field-sensitive arrays
+# (cbmc_args) it stays at 2.5 GB but gives no verdict within 50 minutes.  The registration is kept as a comment because it is the
+# worked example of the unwindset mechanism; the literal-run boundary of the sparse codec stays outside the C03 claim.
+_UNREGISTERED_N138 = dict(
+  names=["c03b_sparse_roundtrip_run_127_131_n138"], timeout=3000, mem_gb=30,
   cbmc_args=["--max-field-sensitivity-array-size", "200"],
   unwindset=[(r"sparse_bv::compress$", r"^while pb_in_buffer < pb_in_buffer_end", 8),
              (r"sparse_bv::compress$", r"^loop \{", 141),
